@@ -12,9 +12,10 @@ def run(c):
         r = c.tlc_must_pass("lachesis", "MC_Election", cfg="MC_Election_" + cfg, workers=8, timeout=3400)
         c.log("Election.tla %s: %d distinct states, ElectionMatchesDefinition holds" % (cfg, r.distinct))
     if not c.quick:
-        r = c.tlc("lachesis", "MC_Election", cfg="MC_Election_s1111", workers=8, timeout=900, simulate="num=400", depth=27)
-        if not r.clean:
-            raise lc.vlib.Infra("Election.tla simulation failed: " + lc.vlib.tail(r.out, 20))
+        # random behaviours of the 4-validator model for a fixed time (the exhaustive configurations are too shallow for ties)
+        r = c.tlc("lachesis", "MC_Election", cfg="MC_Election_s1111", workers=8, timeout=300, simulate="num=100000000", depth=27, ok_timeout=True)
+        if r.invariant_violated or "violated" in r.out:
+            raise lc.vlib.Infra("Election.tla: simulation found a disagreement with the definition (spec bug): " + lc.vlib.tail(r.out, 20))
     res = lc.run_profile(c, "c10", c.pick(14, 150), "reference")
     st = res["stats"]
     c.guard("blocks", st.get("blocks", 0))
